@@ -72,6 +72,10 @@ pub struct Long {
     pub batch: u8,
     pub bufs: u8,
     pub rot: u8,
+    /// `peek_used` is called exactly once, while the first completion is pending, and never again:
+    /// the rest of the run only pops (implementations may cache what a peek read)
+    #[serde(default)]
+    pub peek_once: bool,
 }
 
 #[derive(Clone, Debug, Serialize, Deserialize, PartialEq, Eq)]
@@ -311,6 +315,7 @@ pub struct Flags {
     pub c02_nontrivial: u32,
     pub wrapped: bool,
     pub pipelined_rounds: u32,
+    pub peek_once_runs: u32,
     pub max_out: usize,
     pub c05_checks: u32,
     pub c05_event_windows: u32,
@@ -331,6 +336,8 @@ pub struct Eng {
     dev_out: Vec<u16>,
     used_fifo: VecDeque<(u16, u32)>,
     held: usize,
+    /// long runs with `peek_once`: no further `peek_used` calls
+    no_peek: bool,
     ring_model: Vec<u16>,
     avail_idx: u16,
     last_sn_idx: u16,
@@ -420,6 +427,7 @@ impl Eng {
             dev_out: Vec::new(),
             used_fifo: VecDeque::new(),
             held: 0,
+            no_peek: false,
             ring_model,
             avail_idx: 0,
             desc_owner: vec![None; n],
@@ -442,6 +450,7 @@ impl Eng {
                 c02_nontrivial: 0,
                 wrapped: false,
                 pipelined_rounds: 0,
+                peek_once_runs: 0,
                 c05_event_windows: 0,
                 followed_capacity_deviation: false,
                 heap_failures: 0,
@@ -516,6 +525,9 @@ impl Eng {
         let cp = self.q().can_pop();
         if cp != !self.used_fifo.is_empty() {
             return Err(v("C03", format!("can_pop() = {} but {} completions are pending", cp, self.used_fifo.len())));
+        }
+        if self.no_peek {
+            return Ok(());
         }
         let pk = self.q().peek_used();
         let exp = self.used_fifo.front().map(|x| x.0);
@@ -1356,6 +1368,12 @@ impl Eng {
             while self.dev_out.len() > keep {
                 k = k.wrapping_add((l.rot as u16).wrapping_mul(9973).wrapping_add(r as u16));
                 self.complete(k, k)?;
+                if l.peek_once && !self.no_peek {
+                    // the one and only peek of this run, with a completion pending
+                    self.check_answers()?;
+                    self.no_peek = true;
+                    self.flags.peek_once_runs += 1;
+                }
                 if (r as usize + self.dev_out.len()) % 5 == 0 {
                     // poll between two completions
                     self.pop(&PopWhich::Front)?;
@@ -1595,6 +1613,9 @@ pub fn run_case(c: &QCase, prop: &'static str, st: &mut Stats) -> Result<(), Str
                 if f.pipelined_rounds > 0 {
                     st.class("index_wrap_crossed_with_chains_in_flight");
                 }
+                if f.peek_once_runs > 0 {
+                    st.class("index_wrap_crossed_after_a_single_peek");
+                }
             }
             if c.cfg.legacy {
                 st.class("legacy_layout");
@@ -1799,7 +1820,7 @@ pub fn long_cases(rounds_target: u32, sizes: &[u8]) -> Vec<QCase> {
                 out.push(QCase {
                     cfg: QCfg { log2, indirect: m & 1 != 0, event_idx: m & 2 != 0, ap: m & 4 != 0, legacy, zero_share: if m == 5 { 2 } else { 0 } },
                     ops: vec![],
-                    long: Some(Long { rounds: rounds_target, batch, bufs, rot: m + 1 }),
+                    long: Some(Long { rounds: rounds_target, batch, bufs, rot: m + 1, peek_once: legacy }),
                     huge: 0,
                 });
             }
